@@ -116,9 +116,9 @@ inductive TimedRes
   deriving Repr, DecidableEq
 
 def speedBad (dpos : Bool) (dval durN sd : Nat) : Bool :=
-  dpos && durN > 0 &&
+  dpos && (durN == 0 ||      -- a zero duration is "too fast" for any distance
     ((if dval ≤ 400 then decide (dval * sd > 11 * durN) else decide (dval * sd > 10 * durN)) ||
-     decide (2 * dval * sd < durN))
+     decide (2 * dval * sd < durN)))
 
 /-- the range, speed and cross-country checks on (hours, minutes, seconds = sn / sd) -/
 def timedGuards (xc dpos : Bool) (dval hours minutes sn sd sdecs : Nat) : TimedRes :=
